@@ -230,6 +230,18 @@ def main():
             broken.append(f"proof: {e['file']}:{e['line']} " + ' '.join(x.strip() for x in e['msg'].splitlines()[:4])[:300])
         if not br['errors']: broken.append('proof: build failed: ' + ' '.join(br['failed'] + br['missing'])[:300])
 
+    # thorough tier: independent re-check of the property's compiled files (and everything they depend on) by coqchk,
+    # which also lists the axioms the whole closure relies on
+    coqchk = None
+    if tier == 'thorough' and br['proofs_ok'] and not os.environ.get('VERIF_NO_COQCHK'):
+        mods = ' '.join('Pico.' + t[:-3].replace('/', '.') for t in prop.COQ_TARGETS if t.startswith('props/'))
+        rc3, out3 = sh(f"cd {B} && flock {V}/build/.lock timeout 2400 coqchk -silent -o -Q . Pico {mods}", timeout=2500)
+        axs = []
+        m3 = re.search(r'\* Axioms:\s*(.*?)(?:\n\s*\n|\n\* |\Z)', out3, re.S)
+        if m3: axs = [x.strip() for x in m3.group(1).splitlines() if x.strip()]
+        coqchk = {'rc': rc3, 'cmd': f'coqchk -silent -o -Q . Pico {mods}', 'axioms': axs[:60], 'tail': out3[-600:] if rc3 != 0 else ''}
+        if rc3 != 0: broken.append('coqchk: independent re-check failed: ' + out3[-300:].replace('\n', ' '))
+
     corr = {'evaluations': 0, 'nontrivial': set(), 'samples': [], 'disagreements': [], 'distribution': {}}
     corr_error = None
     if br['driver_ok']:
@@ -334,6 +346,8 @@ def main():
             'build_s': br['build_s'],
             'broken': broken,
             'known_findings_reported': known_lines,
+            'judge': {k: v for k, v in searched.items() if k != 'samples'},
+            'coqchk': coqchk,
         },
         'assumptions': list(getattr(prop, 'ASSUMES', [])),
         'wall_s': round(time.time() - t0, 2),
